@@ -55,7 +55,7 @@ pub fn run(v: &Value) -> Value {
         let res = guard(std::panic::AssertUnwindSafe(|| {
             let outs = rt().block_on(sv::read_column(&spec, &index_file, &data, start, &ops));
             match outs {
-                Err(e) => json!({ "err": e.to_string() }),
+                Err(e) => json!({ "err": errstr(e) }),
                 Ok(outs) => Value::Array(
                     outs.iter()
                         .map(|o| match o {
